@@ -37,6 +37,11 @@ ASSUMPTIONS = [
 ]
 
 BASH = "/usr/bin/bash"
+IMPL_TIMEOUT = 900     # per harness shard; a hanging parse must not stall the run
+# known hang of the tokenizer outside this property's scope (reported by C19: here-document with an
+# EMPTY quoted tag at end of input, e.g. `<<'' `): never generated, and filtered defensively
+HANG_CLASS = __import__("re").compile(r"<<-?\s*(''|\"\")")
+
 KF_EVAL = "KF-C15-eval-lineno-base"
 
 
@@ -276,7 +281,7 @@ def gen_programs(ctx, n):
     for _ in range(n):
         g = G(ctx.rng)
         segs = g.program()
-        if sum(len(s) for s in segs) > 30:
+        if sum(len(s) for s in segs) > 30 or HANG_CLASS.search(prog_text(segs)):
             continue
         # one program in six ends without a newline (not after a blank line: that would be a different program)
         strip = ctx.rng.random() < 0.17 and segs[-1] != [""]
@@ -288,7 +293,7 @@ def check_chunks_and_prefixes(ctx, progs, workdir, res):
     """code chunks vs model chunks vs generator segments; model needs_more on all prefixes vs oracle"""
     opts = "e"
     texts = [prog_text(s, st) for s, _, st in progs]
-    impl_chunks = ctx.impl("c15chunks", [[opts, t] for t in texts])
+    impl_chunks = ctx.impl("c15chunks", [[opts, t] for t in texts], timeout=IMPL_TIMEOUT)
     # verdict classes of all segments lines[s:k] (+ truncations) and of all prefixes
     want = {}
     per_prog = []
@@ -308,7 +313,7 @@ def check_chunks_and_prefixes(ctx, progs, workdir, res):
         for x in allx:
             want[x] = None
     keys = sorted(want)
-    cls = ctx.impl("c15cls", [[opts, x] for x in keys])
+    cls = ctx.impl("c15cls", [[opts, x] for x in keys], timeout=IMPL_TIMEOUT)
     for x, c in zip(keys, cls):
         want[x] = core.dec_line(c)[0] if not c.startswith(("PANIC", "DIED", "TIMEOUT")) else c
     res["evaluations"] += len(keys)
@@ -421,7 +426,7 @@ def check_concat(ctx, progs, res):
             meta.append((t1, t2))
     cases.append(["e", "", "echo x\n"])
     meta.append(("", "echo x\n"))
-    out = ctx.impl("c15concat", cases)
+    out = ctx.impl("c15concat", cases, timeout=IMPL_TIMEOUT)
     res["evaluations"] += len(cases)
     for (t1, t2), l in zip(meta, out):
         f = core.dec_line(l) if not l.startswith(("PANIC", "DIED", "TIMEOUT")) else [l]
@@ -603,7 +608,7 @@ def check_toy_modes(ctx, workdir, res, want_classes):
                 need[x] = None
     keys = sorted(need)
     if keys:
-        cls = ctx.impl("c15cls", [["e", x] for x in keys])
+        cls = ctx.impl("c15cls", [["e", x] for x in keys], timeout=IMPL_TIMEOUT)
         for x, c in zip(keys, cls):
             want_classes[x] = core.dec_line(c)[0] if not c.startswith(("PANIC", "DIED", "TIMEOUT")) else c
     cases, meta = [], []
@@ -719,14 +724,14 @@ def check_purity(ctx, res):
     seqs = purity_cases(ctx)
     flat = [list(x) for s in seqs for x in s]
     uniq = sorted({tuple(x) for x in flat})
-    fresh = ctx.impl("c15fresh", [list(u) for u in uniq], shards=16)
+    fresh = ctx.impl("c15fresh", [list(u) for u in uniq], shards=16, timeout=IMPL_TIMEOUT)
     fresh_of = dict(zip(uniq, fresh))
     # long-lived: one process per quarter of the sequences, each seeing its sequences in order
     parts = [seqs[i::4] for i in range(4)]
 
     def run_part(part):
         cases = [list(x) for s in part for x in s]
-        return cases, ctx.impl("c15parse", cases, shards=1)
+        return cases, ctx.impl("c15parse", cases, shards=1, timeout=IMPL_TIMEOUT)
     with ThreadPoolExecutor(4) as ex:
         outs = list(ex.map(run_part, parts))
     n = 0
@@ -804,7 +809,7 @@ def check_lru(ctx, res):
         keys = [str(rng.randrange(0, cap + 3)) for _ in range(rng.randrange(1, 40))]
         cases.append([str(cap)] + keys)
     cases.append(["64"] + [str(i) for i in range(70)] + ["0", "5", "69", "6"])
-    impl = ctx.impl("c15lru", cases)
+    impl = ctx.impl("c15lru", cases, timeout=IMPL_TIMEOUT)
     model = ctx.model("c15lru", cases)
     res["model_cases"]["c15lru"] = cases
     res["model_out"]["c15lru"] = model
@@ -906,7 +911,7 @@ def search(ctx, res):
         check_modes(ctx, progs, workdir, r2)
         # chunks against the generator's boundaries (needs no model)
         texts = [prog_text(s, st) for s, _, st in progs]
-        impl_chunks = ctx.impl("c15chunks", [["e", t] for t in texts])
+        impl_chunks = ctx.impl("c15chunks", [["e", t] for t in texts], timeout=IMPL_TIMEOUT)
         for (segs, _, strip), t, il in zip(progs, texts, impl_chunks):
             code = core.dec_line(il) if not il.startswith(("PANIC", "DIED", "TIMEOUT")) else [il]
             expect = prog_chunks(segs, strip)
